@@ -4965,7 +4965,7 @@ func (cl *alterReplicaLogDirsSharder) shard(ctx context.Context, kreq kmsg.Reque
 		})
 	}
 
-	return issues, true, nil // this is reshardable
+	return issues, false, nil // not reshardable: each shard is pinned to one replica broker; resharding a failed shard would send its partitions to every replica again, including those that already answered
 }
 
 func (*alterReplicaLogDirsSharder) onResp(kmsg.Request, kmsg.Response) error { return nil } // topic / partitions: not retried
@@ -5067,7 +5067,7 @@ func (cl *describeLogDirsSharder) shard(ctx context.Context, kreq kmsg.Request, 
 		reqTopic.Topic = topic
 		reqTopic.Partitions = parts
 		r.Topics = append(r.Topics, reqTopic)
-	})...), true, nil // this is reshardable
+	})...), false, nil // not reshardable: each shard is pinned to one replica broker; resharding a failed shard would send its partitions to every replica again, including those that already answered
 }
 
 func (*describeLogDirsSharder) onResp(kmsg.Request, kmsg.Response) error { return nil } // topic / configs: not retried
